@@ -2,7 +2,10 @@
 
 package quickfix
 
-import "io"
+import (
+	"bytes"
+	"io"
+)
 
 // VerifParser gives the verification harness (/verif, area framer) access to the unexported stream parser.
 type VerifParser struct{ p *parser }
@@ -18,3 +21,7 @@ func (v *VerifParser) ReadMessage() ([]byte, error) {
 	}
 	return append([]byte(nil), b.Bytes()...), nil
 }
+
+// ReadMessageBuffer wraps parser.ReadMessage and returns the frame exactly as the read loop gets it (no copy), so that a
+// harness can hold frames while the parser reads on.
+func (v *VerifParser) ReadMessageBuffer() (*bytes.Buffer, error) { return v.p.ReadMessage() }
